@@ -64,6 +64,31 @@ def cases(tier, seed):
                 for i in range(0, len(ops) - 3, 400):
                     cs.append(Case("r%d-%d" % (n, i), ops[:3] + ops[3 + i:3 + i + 400], ("block-read",)))
                 n += 1
+    # long tables (10 ... 40 registers of mixed sizes, some gaps, one or two areas): a search for the first overlapped
+    # register that is cleverer than a scan must still find a multi-word register the range starts inside of
+    for k in ((10, 13, 24) if tier == "quick" else (9, 10, 11, 13, 16, 17, 24, 33, 40)):
+        for variant in range(2 if tier == "quick" else 4):
+            ents, addr = [], 16
+            for i in range(k):
+                ty = rnd.choice(["u16", "u32", "u64", "f32", "u32", "u64"])
+                sz = {"u16": 1, "u32": 2, "u64": 4, "f32": 2}[ty]
+                dflt = {"u16": "0101", "u32": "a1a2a3a4", "u64": "1122334455667788", "f32": "3f800000"}[ty]
+                ents.append("%s:%d:%s:t" % (ty, addr, dflt))
+                addr += sz + rnd.choice([0, 0, 0, 1])
+            end = addr + 1
+            if variant % 2:
+                cut = int(ents[k // 2].split(":")[1])
+                aline = "16:%d:rw:M|%d:%d:rw:M" % (cut - 16, cut, end - cut)
+            else:
+                aline = "16:%d:rw:M" % (end - 16)
+            ops = ["rt.table %d %s %s" % (variant % 2, aline, "|".join(ents)), "rt.init"]
+            for a in range(14, end + 2):
+                for ln in (0, 1, 2, 3, 5, 9, end):
+                    script = rnd.choice(["-", "-", "0,1", "0,-1", "0,0,0,7"])
+                    ops.append("rt.foreach %d %d %s" % (a, ln, script))
+                ops.append("rt.bread %d %d" % (a, rnd.randint(0, 7)))
+            for i in range(0, len(ops) - 2, 400):
+                cs.append(Case("long%d-%d-%d" % (k, variant, i), ops[:2] + ops[2 + i:2 + i + 400], ("long-table",)))
     # the top of the address space: the last area ends at 0xffffffff (exclusive), requests reach and cross 2^32
     TOP = 2 ** 32
     for be in (0, 1):
